@@ -43,6 +43,19 @@ RAW = [
     "noisy := {|k| {'==: m{|o| say(k); true}}}; %{1: noisy(1), 2: noisy(2), 3: noisy(3), 4: noisy(4)} == %{1: 0, 2: 0, 3: 0, 4: 0}",
     "o := {d: 1, c: 2, b: 3, a: 4}; [o.values, o.items, o.A, o.S, o.repr, o.M.keys, o@{|k, v| v}, o.keys.sum, o$([]){|acc, kv| [*acc, kv]}]",
     "m := %{'d: 1, 'c: 2, 'b: 3, 'a: 4}; [m.values, m.items, m.A, m.S, m.repr, m.O.keys, m@{|k, v| v}, m$([]){|acc, kv| [*acc, kv]}]",
+    # containers in which SEVERAL members fail (or are unrepresentable): which failure is reported must not depend on a hash-table walk
+    "JSON.dec(`{\"a\": 1e300, \"b\": 2e300, \"c\": -3e300, \"d\": 9223372036854775808, \"e\": 1e19, \"f\": 4e300}`)",
+    "JSON.dec(`{\"a\": {\"x\": 1e300}, \"b\": [2e300], \"c\": {\"y\": [3e300, 4e300]}, \"d\": 5e300, \"e\": {\"z\": 6e300}}`)",
+    "`{\"p\": 1e999, \"q\": 2e999}`.decJSON",
+    "`[{\"a\": 18446744073709551616, \"b\": 36893488147419103232, \"c\": -18446744073709551616, \"d\": 1.5e308, \"e\": 1.6e308}]`.decJSON.p",
+    "mk := {|k| {S: m{raise Err.new(k)}, repr: m{raise Err.new(k + \"r\")}}}; o := {d: mk(\"d\"), b: mk(\"b\"), a: mk(\"a\"), c: mk(\"c\")}; [nil.try.{|u| o.S}.A, nil.try.{|u| o.repr}.A, nil.try.{|u| \"#{o}\"}.A, nil.try.{|u| [o].S}.A]",
+    "mk := {|k| {S: m{raise Err.new(k)}, repr: m{raise Err.new(k + \"r\")}}}; m := %{'d: mk(\"d\"), 'b: mk(\"b\"), 'a: mk(\"a\"), 3: mk(\"3\")}; [nil.try.{|u| m.S}.A, nil.try.{|u| m.repr}.A, nil.try.{|u| m.p}.A]",
+    "f := {|x| x}; nil.try.{|u| JSON.enc({d: f, b: f, a: <{|i| yield i}>, c: 1.try})}.A",
+    "nil.try.{|u| {d: 1, c: 2, b: 3, a: 4}@{|k, v| raise Err.new(k)}}.A; nil.try.{|u| %{'d: 1, 'c: 2, 'b: 3, 'a: 4}@{|k, v| raise Err.new(k)}}.A",
+    "bad := {|k| {'==: m{|o| raise Err.new(k)}}}; nil.try.{|u| {d: bad(\"d\"), c: bad(\"c\"), b: bad(\"b\"), a: bad(\"a\")} == {d: 0, c: 0, b: 0, a: 0}}.A",
+    "i := import(\"http/internal\"); nil.try.{|u| i['request](method: \"GET\", url: \"http://127.0.0.1:1/\", headers: {d: 1, c: 2, b: 3, a: 4})}.A",
+    "i := import(\"http/internal\"); nil.try.{|u| i['request](method: \"GET\", url: \"http://127.0.0.1:1/\", queries: {d: 1, c: [2], b: nil, a: 4.5})}.A",
+    "bad := {|k| {'==: m{|o| raise Err.new(k)}}}; nil.try.{|u| %{4: bad(\"d\"), 3: bad(\"c\"), 2: bad(\"b\"), 1: bad(\"a\")} == %{4: 0, 3: 0, 2: 0, 1: 0}}.A",
 ]
 
 
